@@ -238,6 +238,53 @@ def string_forms_oracle(rng):
     return fails
 
 
+def hyper_gradient_oracle(rng, n):
+    """a hyper-network-driven network (HYPERPINN): an equation parameter that feeds the hyper-network and is selected by a
+    term's derivative keys receives that term's derivative (compared with central finite differences of the value, float64);
+    selected by no term it receives exactly zero"""
+    jax, jnp, np, eqx, jinns = jx()
+    from jinns.parameters import Params
+    from jinns.data._Batchs import ODEBatch
+    fails = []
+    for trial in range(n):
+        key = jax.random.PRNGKey(rng.randrange(1 << 30))
+        eqx_list = ((eqx.nn.Linear, 1, 3), (jax.nn.tanh,), (eqx.nn.Linear, 3, 1))
+        eqx_list_hyper = ((eqx.nn.Linear, 2, 4), (jax.nn.tanh,), (eqx.nn.Linear, 4, 1))
+        u = jinns.utils.create_HYPERPINN(key, eqx_list, "ODE", hyperparams=["a", "b"], hypernet_input_size=2, dim_x=0, eqx_list_hyper=eqx_list_hyper)
+        P = Params(nn_params=u.init_params(), eq_params={"a": jnp.array(0.5 + rng.random()), "b": jnp.array(rng.random() - 0.5)})
+
+        class Eq(jinns.loss.ODE):
+            def equation(self, t, u, params):
+                return jax.grad(lambda tt: u(tt, params)[0])(t) + params.eq_params["a"] * u(t, params)
+        sel = {"dyn_loss": rng.random() < 0.5, "initial_condition": rng.random() < 0.7, "observations": rng.random() < 0.5}
+        if trial == 0:
+            sel = {"dyn_loss": False, "initial_condition": True, "observations": False}
+        mask = lambda on: Params(nn_params=True, eq_params={"a": bool(on), "b": bool(on)})
+        dk = jinns.parameters.DerivativeKeysODE(dyn_loss=mask(sel["dyn_loss"]), initial_condition=mask(sel["initial_condition"]), observations=mask(sel["observations"]))
+        ts = jnp.array([0.1, 0.4, 0.7])
+        obs = {"pinn_in": jnp.array([[0.2], [0.6]]), "val": jnp.array([[0.3], [-0.2]]), "eq_params": {}}
+        batch = ODEBatch(temporal_batch=ts, obs_batch_dict=obs)
+
+        def build(keys):
+            return jinns.loss.LossODE(u=u, dynamic_loss=Eq(), derivative_keys=keys, initial_condition=(0.0, 1.0), params=P)
+        L = build(dk)
+        try:
+            g = jax.grad(lambda p: L(p, batch)[0])(P)
+            # the value of each term as a function of a (derivative keys do not change values)
+            def term_values(a):
+                return L(Params(nn_params=P.nn_params, eq_params={"a": a, "b": P.eq_params["b"]}), batch)[1]
+            h = 1e-6
+            a0 = P.eq_params["a"]
+            up, dn = term_values(a0 + h), term_values(a0 - h)
+            want = sum(float(up[t] - dn[t]) / (2 * h) for t in sel if sel[t])
+            got = float(g.eq_params["a"])
+            if abs(got - want) > 1e-5 * (1.0 + abs(want)):
+                fails.append({"detail": f"hyper-network-driven network, terms selecting the designated parameter a: {[t for t in sel if sel[t]]}: d total / d a = {got}, finite differences of those terms give {want}", "case": {"what": "hyper_gradient", "sel": sel}})
+        except Exception as ex:
+            fails.append({"detail": f"hyper-network-driven loss raised {type(ex).__name__}: {str(ex)[:200]}", "case": {"what": "hyper_gradient"}})
+    return fails
+
+
 # ------------------------------------------------------------------ system losses (two unknowns, per-unknown derivative keys)
 SYS_TERMS = ["initial_condition", "observations"]
 
@@ -441,18 +488,21 @@ def generate(tier, seed, casedir, variant):
                 samples.append(dict(kind=kind, masks=masks, value=val, grad=grad))
             cid += 1
     viol += string_forms_oracle(rng)
+    viol += hyper_gradient_oracle(rng, 3 if tier == "quick" else 12)
     write_cases(casedir, "C06", "R_C06", variant, cases, chunk=150)
     scases, smeta = sys_generate(tier, rng, casedir, variant, viol, dist, samples)
     write_cases(casedir, "C06sys", "R_C06", variant, scases, chunk=150, ctype="scase", summary="ssummary")
     # ids of the system files are local to them: the driver looks them up as "s<id>" when the file name says so
     meta.update(smeta); cases = cases + scases
     return dict(meta=meta, oracle_violations=viol, evaluations=len(cases), distinct_nontrivial=len(nontrivial), samples=samples, distribution=dist,
-                rule="assignments of {selected, not selected} to every (loss term, parameter group) pair, groups = network parameters, eq_params[a], eq_params[b] (all 512 for the ODE loss in the thorough tier, random ones otherwise, the default and five string-form specifications (built with from_str) always included), on random polynomial problems (half of the ODE ones with a parameter batch on the equation's parameter); jax.grad of the total and the value compared with the symbolic masked total; non-trivial = non-zero gradient; distinct by (loss kind, assignment); plus string / default / rejection checks; plus two-unknown system losses (ODE and non-stationary PDE) whose per-unknown derivative keys differ, groups = nn_params[u], nn_params[v], eq_params[a], eq_params[b], the equation parameters shared or given per unknown",
+                rule="assignments of {selected, not selected} to every (loss term, parameter group) pair, groups = network parameters, eq_params[a], eq_params[b] (all 512 for the ODE loss in the thorough tier, random ones otherwise, the default and five string-form specifications (built with from_str) always included), on random polynomial problems (half of the ODE ones with a parameter batch on the equation's parameter); jax.grad of the total and the value compared with the symbolic masked total; non-trivial = non-zero gradient; distinct by (loss kind, assignment); plus string / default / rejection checks; plus gradients through a hyper-network-driven network against finite differences (oracle only); plus two-unknown system losses (ODE and non-stationary PDE) whose per-unknown derivative keys differ, groups = nn_params[u], nn_params[v], eq_params[a], eq_params[b], the equation parameters shared or given per unknown",
                 oracle_checks=len(cases) // 7 + 1, exhaustive=False)
 
 
 def replay(rep, casedir, variant):
     c = rep["case"]
+    if c.get("what") == "hyper_gradient":
+        return dict(meta={}, oracle_violations=hyper_gradient_oracle(random.Random(rep.get("seed", 0)), 12), evaluations=12, distinct_nontrivial=12, rule="replay", samples=[c])
     if c.get("what") == "strings":
         return dict(meta={}, oracle_violations=string_forms_oracle(random.Random(0)), evaluations=1, distinct_nontrivial=1, rule="replay", samples=[c])
     if c.get("what") == "system":
